@@ -65,6 +65,16 @@ func robustChild(req []byte) interface{} {
 			}
 			_ = fv.String()
 			_ = fv.Error()
+		case "setidx":
+			// setters with an astronomically large idx argument (r.Text: the name, r.Cfg: log2 of the idx)
+			c := ucfg.MustNewFrom(map[string]interface{}{"l": []interface{}{1}}, ucfg.PathSep("."))
+			idx := 1 << uint(r.Cfg)
+			c.SetString(r.Text, idx, "v", ucfg.PathSep("."))
+			c.SetInt(r.Text, idx, 1)
+			c.SetChild(r.Text, idx, ucfg.New(), ucfg.PathSep("."))
+			if n := maxListLenCfg(c, 4); n > 1025 {
+				res = fmt.Sprintf("alloc: a list of %d entries was allocated", n)
+			}
 		case "parse":
 			parse.ValueWithConfig(r.Text, robustParseCfgs[r.Cfg%len(robustParseCfgs)])
 		case "splice":
@@ -211,6 +221,12 @@ func robustFuzz(args []string) int {
 		}
 		jobs <- robustReq{Kind: "parse", Text: string(b), Cfg: rng.Intn(6)}
 	}
+	// (3b) setters with huge idx arguments, in child processes
+	for _, name := range []string{"", "l", "a", "a.b", "l.0"} {
+		for _, lg := range []int{21, 31, 32, 40, 62} {
+			jobs <- robustReq{Kind: "setidx", Text: name, Cfg: lg}
+		}
+	}
 	close(jobs)
 	for w := 0; w < workers; w++ {
 		<-done
@@ -244,13 +260,23 @@ func robustFuzz(args []string) int {
 					c.Has(name, idx, opts...)
 					c.CountField(name, opts...)
 					c.Remove(name, idx, opts...)
-					huge := idx > 1<<20
-					if !huge { // a direct idx argument is the caller's request (not bounded by MaxIdx); keep the harness small
+					// the idx ARGUMENT of a setter is bounded by MaxIdx like an index in a path; astronomically large
+					// ones are tried in a child process below (a regression there is 'fatal error: out of memory')
+					if idx <= 1<<20 {
 						c.SetString(name, idx, "v", opts...)
 						c.SetInt(name, idx, 1, opts...)
 						c.SetChild(name, idx, ucfg.New(), opts...)
+						max := 1025
+						if oi == 3 {
+							max = 3
+						}
+						if n := maxListLenCfg(c, 4); n > max {
+							note = fmt.Sprintf("a list of %d entries was allocated by a setter with idx %d (MaxIdx+1 = %d)", n, idx, max)
+						}
 						c.Remove(name, idx, opts...)
 					}
+					// a nil *Config as the value of SetChild is an error
+					c.SetChild(name, idx, nil, opts...)
 					// a KEY never allocates beyond MaxIdx+1 entries
 					c2 := ucfg.New()
 					c2.SetString(name, -1, "v", opts...)
